@@ -906,17 +906,23 @@ def rule_input(rep: Report, rid="C15.input") -> None:
     c = cnf()
     I = c.I
 
-    def rooted_in_doc(t) -> bool:
+    def rooted_in_doc(t, depth=0) -> bool:
         while isinstance(t, tuple) and t and t[0] in ("item", "attr", "slice"):
             t = t[1]
         if t == c.doc:
             return True
+        if depth < 6 and isinstance(t, tuple) and t and t[0] in ("phi", "loopout"):
+            info = I.loops.get(t[1], {})
+            alts = [info.get("carried_init", {}).get(t[2]), info.get("carried", {}).get(t[2]), info.get("break_env", {}).get(t[2])]
+            return any(a is not None and a != t and rooted_in_doc(a, depth + 1) for a in alts)
+        if depth < 6 and isinstance(t, tuple) and t and t[0] == "cond":
+            return rooted_in_doc(t[2], depth + 1) or rooted_in_doc(t[3], depth + 1)
         if isinstance(t, tuple) and t and t[0] == "elem":
             it = I.loops.get(t[1], {}).get("iter")
             if it is not None:
-                return any(rooted_in_doc(s[1]) for s in nf.flatten_segs(I, [("s", it)]) if s[0] in ("s", "e")) or rooted_in_doc(it)
+                return any(rooted_in_doc(s[1], depth + 1) for s in nf.flatten_segs(I, [("s", it)]) if s[0] in ("s", "e")) or rooted_in_doc(it, depth + 1)
         if isinstance(t, tuple) and t and t[0] == "call" and t[1] == "enumerate":
-            return rooted_in_doc(t[2][0])
+            return rooted_in_doc(t[2][0], depth + 1)
         return False
 
     nmut = 0
